@@ -17,6 +17,19 @@ Definition obind {R S} (m : outcome R) (f : R -> outcome S) : outcome S :=
 
 Inductive dialect := Sqlite | Mysql | Postgres.
 
+(* clause order of the generated statement text: x is appended before y *)
+Definition clause_eqb (a b : clause) : bool :=
+  match a, b with
+  | CL_DISTINCT, CL_DISTINCT | CL_FROM, CL_FROM | CL_WHERE, CL_WHERE | CL_GROUPBY, CL_GROUPBY | CL_HAVING, CL_HAVING
+  | CL_ORDERBY, CL_ORDERBY | CL_WINDOW, CL_WINDOW | CL_FORUPDATE, CL_FORUPDATE => true
+  | _, _ => false
+  end.
+Fixpoint appended_before (x y : clause) (l : list clause) : bool :=
+  match l with
+  | [] => false
+  | c :: r => if clause_eqb c x then existsb (clause_eqb y) r else if clause_eqb c y then false else appended_before x y r
+  end.
+
 Section WithA.
 Context {A : Type}.
 
